@@ -179,4 +179,22 @@ def historySize (r : Repo) (st : GState) : Res HistorySize :=
   else if (List.range r.length).any (fun t => (st.tags.recs t).isSome) then .panic "tag records remain"
   else .ok st.hist
 
+/-- what a schedule delivers, per kind -/
+def blobsOf : List Op → List Nat
+  | [] => [] | .blob o :: rest => o :: blobsOf rest | _ :: rest => blobsOf rest
+def treesOf : List Op → List Nat
+  | [] => [] | .tree o :: rest => o :: treesOf rest | _ :: rest => treesOf rest
+def commitsOf : List Op → List Nat
+  | [] => [] | .commit o :: rest => o :: commitsOf rest | _ :: rest => commitsOf rest
+def tagsOf : List Op → List Nat
+  | [] => [] | .tag o :: rest => o :: tagsOf rest | _ :: rest => tagsOf rest
+def refsOf : List Op → Nat
+  | [] => 0 | .ref _ :: rest => refsOf rest + 1 | _ :: rest => refsOf rest
+
+/-- declared size of an object -/
+def Repo.sizeOf (r : Repo) (i : Nat) : Nat :=
+  match r.obj i with
+  | some (.blob s) | some (.tree s _) | some (.commit s _ _) | some (.tag s _ _) => s
+  | none => 0
+
 end GitSizer.Graph
